@@ -25,6 +25,7 @@ func init() {
 		Title:       "Boolean path operations compute the set algebra of the filled regions",
 		Explanation: "Decides the finite tables of the boolean operations for every input that reaches them: each public wrapper passes the op constant of its name, its own operands and NonZero; SweepPoint.InResult's per-op membership expressions equal the property's truth table over (subject fills, clipping fills) on each side of an edge and an edge is kept iff filling changes; the pathOp switch is exhaustive; bentleyOttmann's four early-outs (Q empty, P empty, disjoint sub-path of P, of Q) keep an operand exactly for the ops whose truth table keeps it. NOT decided: the sweep itself, snap rounding, overlap merging, contour tracing, termination, area laws.",
 		Run: func(c *core.Ctx, r *core.Report) {
+			E9OperandListsSeparate(c, r)
 			E9WindingInherited(c, r)
 			E9AdjacentAlwaysTested(c, r)
 			E11StickyFlag(c, r)
@@ -91,6 +92,7 @@ func init() {
 		Explanation: "Decides the encoding clauses Length/SplitAt/Reverse/Split depend on, for every path: in every decoder loop of the package (incl. SplitAt, Reverse, Split, Length) a command cursor of one path only indexes that path's data; payload offsets stay inside the record of the command being decoded; every record built (incl. the ones Reverse emits) has the command at both ends and the format's length; cmdLen agrees with the format. NOT decided: quadrature, arc-length inversion, involution, winding negation.",
 		Run: func(c *core.Ctx, r *core.Report) {
 			E11CutsSortedBeforeUse(c, r)
+			E11CutInterval(c, r)
 			E9ChordShortcut(c, r)
 			E11QuadratureCoversArc(c, r)
 			E3ArcShortcut(c, r)
@@ -207,6 +209,7 @@ func init() {
 			E6MemoStoresCompared(c, r)
 			E5ClosedPaintOperator(c, r)
 			E5PaintFollowsItsSetter(c, r)
+			E11ViewScaleInvariant(c, r)
 			E11ConstIndexInLoop(c, r)
 			E6DashPeriod(c, r)
 			E6JoinerSupport(c, r)
@@ -269,6 +272,7 @@ func init() {
 		Assumptions: []string{"standard-library functions not in the mutator table are pure (listed in coverage.external_assumed)", "results of calls through function-typed parameters are fresh objects", "third-party Go dependencies are analysed from source, cgo is not"},
 		Run: func(c *core.Ctx, r *core.Report) {
 			E11SinkForwardsEverySegment(c, r)
+			E11ViewScaleInvariant(c, r)
 			E6SkipBoundsCover(c, r)
 			E11PixelLoopBounds(c, r)
 			E1Renderers(c, r)
@@ -290,6 +294,7 @@ func init() {
 		Explanation: "Decides, for every call sequence: view helpers are exactly `view = view.Mul(Identity.<same-named op>(own parameters))` (post-multiplication) and ComposeView post-multiplies its argument; the four draw entry points assemble the same matrix CoordSystemView().Mul(view).Translate(coordView.Dot(x,y)) and compensate text/images exactly in the coordinate systems whose CoordSystemView reflects that axis; every Set*/Reset* method stores only into ContextState; Push saves and Pop restores the whole ContextState (Pop guarded, shrinking by one); Fill/Stroke clear and restore exactly the other paint; drawing does not rewrite the dash array shared with pushed states; RenderViewTo replays in sorted z-index then slice order with no renderer call inside a map range, and recording appends to the current z-index slice. NOT decided: the matrix algebra itself, Fit/Clip/Transform arithmetic, that DrawPath with several paths keeps per-path stroke state.",
 		Run: func(c *core.Ctx, r *core.Report) {
 			E11LayerMatrixLeft(c, r)
+			E11ImageExtentFromSize(c, r)
 			E11DashPairTogether(c, r)
 			E11SetterCopiesSlice(c, r)
 			E11DashCover(c, r)
